@@ -14,9 +14,12 @@ RULE = ('rotation: combine_at_angle on 1-16-sample integer and float component p
         'values == measure(combine_at_angle(ns, we, degree_i)) through separate public calls (tolerance 0). '
         'time_match: exact domain, clusters of 2-4 signals (Signal and AccSignal), every master index, steps 0..12 and steps >= npts, slaves = master shifted by a planted lag in (-steps, steps) '
         '(random / edge padding), shifted + noise, independent, constant/plateau (ties), identical; 2-signal clusters of unequal lengths; values, ndarray tags and returned lag compared exactly; '
+        'records of more than 5000 samples whose first 5000+ samples are constant (quiet lead-in at zero or on a static level) with a short burst near the end and a planted lag in either direction, default steps=10 and windows 2..8; '
         'the lag-removal predicate (overlap coincides, lengths unchanged, master untouched) evaluated on implementation outputs whenever the theorem hypotheses hold. '
         'same_start: 2-4 signals of equal or unequal length, every master index, windows by time (start/end multiples and non-multiples of dt, end=-1, defaults), dyadic dt exact (tolerance 0 when the section length is a power of two, '
-        'else 1e-12), dt in {0.01, 0.005, 0.02} with 1e-10; nearly aligned clusters (common record + per-signal offset): small-unit records (amplitude ~1e-7, offsets of a few 1e-9; exact: (64k+o)2^-30) and records on a static level (~1000 with a mismatch of a few 1e-3; exact: 1024+(k+o)/256), tolerances relative to the record scale stay >= 1e4 times below the offsets; alignment predicate (section averages equal, master unchanged, lengths unchanged) evaluated on implementation outputs. '
+        'else 1e-12), dt in {0.01, 0.005, 0.02} with 1e-10; nearly aligned clusters (common record + per-signal offset): small-unit records (amplitude ~1e-7, offsets of a few 1e-9; exact: (64k+o)2^-30) and records on a static level (~1000 with a mismatch of a few 1e-3; exact: 1024+(k+o)/256), tolerances relative to the record scale stay >= 1e4 times below the offsets; alignment predicate (section averages equal, master unchanged, lengths unchanged) evaluated on implementation outputs; '
+        'records stored as int64 / int32 arrays or lists of ints (raw counts up to 2000, section averages differing by a non-integer) with every signal in turn as master (same exact comparison: the result is float64), '
+        'and float32 arrays (numbers exactly representable in float32; compared at float32 precision 1e-5 scale because np.mean, the difference and the shifted record of a float32 record are float32; tolerance 0 for power-of-two sections of dyadic data). '
         'non-trivial = components/signals not identically zero and, for alignment, at least one non-master signal changed or a non-zero lag planted')
 TRUSTED = [
     'Coq 8.16.1 kernel + vm_compute; Interval tactic for the trigonometric point goals',
@@ -127,11 +130,13 @@ def int_pair(rng, n):
     return a, b
 
 
-STORAGE = ['float64', 'int64', 'int32', 'list of ints']
+STORAGE = ['float64', 'int64', 'int32', 'list of ints', 'float32']
 
 
 def stored(v, kind):
-    """the same numbers in another storage type (kind > 0 requires integer values); always a fresh object"""
+    """the same numbers in another storage type (kinds 1-3 require integer values, kind 4 float32-representable ones); always a fresh object"""
+    if kind == 4:
+        return np.array(v, dtype=np.float32)
     if kind == 0:
         return np.array(v, dtype=float)
     if kind == 1:
@@ -394,9 +399,33 @@ def shifted(rng, bm, L, pad):
     return np.array(list(bm[k:]) + fill_back, dtype=float)
 
 
-def make_cluster(vals, dt, master, stypes):
+def make_cluster(vals, dt, master, stypes, st=0):
     import eqsig
-    return eqsig.Cluster([v.copy() for v in vals], dt, master_index=master, stypes=stypes)
+    return eqsig.Cluster([(stored(v, st) if st else v.copy()) for v in vals], dt, master_index=master, stypes=stypes)
+
+
+def qrle(v, minrun=24):
+    """Coq term of a list Q with long constant runs written as `repeat x n` (same list, short text: a 5000-sample quiet lead-in)"""
+    parts, lit, i, n = [], [], 0, len(v)
+    while i < n:
+        j = i
+        while j < n and v[j] == v[i]:
+            j += 1
+        if j - i >= minrun:
+            if lit:
+                parts.append(qlist(lit))
+                lit = []
+            parts.append('repeat %s (Z.to_nat %d)' % (q(v[i]), j - i))
+        else:
+            lit += list(v[i:j])
+        i = j
+    if lit:
+        parts.append(qlist(lit))
+    return '(' + ' ++ '.join(parts) + ')' if parts else '[]'
+
+
+def qrlemat(rows):
+    return '[' + '; '.join(qrle(r) for r in rows) + ']'
 
 
 def tm_cases(rep, rng, tier, cases):
@@ -484,6 +513,63 @@ def tm_cases(rep, rng, tier, cases):
                               dict(rp, planted_lags=planted), site + '[lag removed]', nontrivial=nontriv, klass='time_match/property'))
 
 
+def tm_long_cases(rep, rng, tier, cases):
+    """records longer than 5000 samples whose first 5000+ samples are constant (quiet pre-event lead-in, zero or a static level),
+    a short burst of motion near the end, and a planted integer lag smaller than the window in either direction (default steps=10
+    and small windows); every residual sum runs over the whole record. Shipped to Coq with the constant runs as `repeat`."""
+    NL = 6 if tier == 'quick' else 30
+    for k in range(NL):
+        steps = 10 if k % 3 == 0 else rng.randint(2, 8)
+        level = float(rng.choice([0, 0, 2, -3]))
+        n_quiet = 5000 + rng.randint(steps + 1, 40)
+        burst = [float(rng.randint(-9, 9)) for _ in range(rng.randint(8, 40))]
+        burst[0] = float(rng.choice([-7, 5, 9]))
+        tail = [level] * rng.randint(steps + 2, 30) if rng.random() < 0.6 else [float(rng.randint(-2, 2)) for _ in range(rng.randint(steps + 2, 30))]
+        sc = 2.0 ** (-rng.choice([0, 0, 1, 3]))
+        bm = np.array([level] * n_quiet + burst + tail) * sc
+        n = len(bm)
+        L = rng.randint(1, steps - 1) * (1 if k % 2 == 0 else -1)
+        nsig = 2 if k % 3 else 3
+        master = rng.randrange(nsig)
+        vals, planted = [], []
+        for s in range(nsig):
+            if s == master:
+                vals.append(bm.copy())
+                planted.append(0)
+                continue
+            Ls = L                                   # first non-master signal: the non-zero planted lag
+            if any(p != 0 for p in planted):        # further signals: any lag inside the window (0 included)
+                Ls = rng.randint(-(steps - 1), steps - 1)
+            vals.append(shifted(rng, bm, Ls, 'edge'))
+            planted.append(Ls)
+        dt = gens.dyadic_dt(rng, 1, 7)
+        stypes = rng.choice(['custom', 'acc'])
+        use_default_steps = (steps == 10)
+        site = 'Cluster.time_match[%d signals][> 5000 samples, quiet lead-in]' % nsig
+        args = {'values': [list(v) for v in vals], 'dt': dt, 'master_index': master, 'steps': steps, 'stypes': stypes}
+
+        def call():
+            c = make_cluster(vals, dt, master, stypes)
+            ret = c.time_match() if use_default_steps else c.time_match(steps=steps)
+            outs = [c.values_by_index(i) for i in range(nsig)]
+            tags = [isinstance(o, np.ndarray) for o in outs]
+            return ret, [np.array(o, dtype=float) for o in outs], tags, [c.signal_by_index(i).npts for i in range(nsig)]
+
+        res = guarded(call)
+        if isinstance(res, ImplError):
+            viol_once(rep, site, {'function': 'eqsig.Cluster.time_match', 'args': args, 'impl_error': str(res)})
+            continue
+        ret, outs, tags, npts = res
+        if npts != [len(o) for o in outs]:
+            viol_once(rep, site, {'function': 'eqsig.Cluster.time_match', 'args': args, 'impl': 'npts inconsistent with values', 'npts': npts})
+            continue
+        rp = {'function': 'eqsig.Cluster.time_match', 'args': args, 'impl': {'returned': int(ret), 'values': outs, 'is_ndarray': tags}}
+        cases.append(Case('CTm %d %d %s %s [%s] (%d)%%Z' % (steps, master, qrlemat(vals), qrlemat(outs), '; '.join(cbool(t) for t in tags), int(ret)),
+                          rp, site, nontrivial=True, klass='time_match/%d/long-quiet-lead-in' % nsig))
+        cases.append(Case('CTmProp %d %d %s %s %s' % (steps, master, qrlemat(vals), core.zlist(planted), qrlemat(outs)),
+                          dict(rp, planted_lags=planted), site + '[lag removed]', nontrivial=True, klass='time_match/property/long-quiet-lead-in'))
+
+
 def pow2(n):
     return n > 0 and (n & (n - 1)) == 0
 
@@ -491,13 +577,19 @@ def pow2(n):
 def ss_cases(rep, rng, tier, cases):
     N = 150 if tier == 'quick' else 1500
     NX = 24 if tier == 'quick' else 200      # nearly aligned clusters: small-unit records / records on a large static level
+    NS = 20 if tier == 'quick' else 160      # records stored as int64 / int32 / list of ints (raw counts) / float32: every master index in turn
     fragile = 0
-    for k in range(N + NX):
+    for k in range(N + NX + NS):
         nsig = rng.choice([2, 2, 3, 3, 4])
         master = rng.randrange(nsig)
         exact = rng.random() < 0.75
         special = None
-        if k >= N:
+        st = 0
+        if k >= N + NX:
+            st = (1, 2, 3, 1, 4)[(k - N - NX) % 5]
+            if st != 4:
+                exact = True
+        elif k >= N:
             special = ('small-unit', 'static-level')[(k - N) % 2]
             exact = ((k - N) // 2) % 2 == 0
         dt = gens.dyadic_dt(rng, 1, 6) if exact else rng.choice([0.01, 0.005, 0.02])
@@ -507,10 +599,12 @@ def ss_cases(rep, rng, tier, cases):
         vals = []
         for s in range(nsig):
             if exact:
-                v, _ = gens.int_record(rng, lens[s], amp=rng.choice([3, 20]))
-                v = v * 2.0 ** (-rng.choice([0, 1, 3]))
+                v, _ = gens.int_record(rng, lens[s], amp=rng.choice([3, 20, 2000] if st in (1, 2, 3) else [3, 20]))
+                v = v * 2.0 ** (-rng.choice([0, 1, 3]) if st not in (1, 2, 3) else 0)
             else:
                 v, _ = gens.float_record(rng, lens[s])
+            if st == 4:
+                v = np.array(v, dtype=np.float32).astype(float)      # the numbers a float32 record holds
             vals.append(v)
         if special:
             # every signal = one common record + its own small offset (+ its own tail beyond the shortest length): the section
@@ -587,34 +681,48 @@ def ss_cases(rep, rng, tier, cases):
         seclens = [len(v[s_idx:e_idx]) for v in vals]
         if min(seclens) == 0:
             continue
+        if st in (1, 2, 3):
+            # raw counts: make the section averages differ by a non-integer (whenever the section has two samples or more)
+            avs = [sum(frac(x) for x in v[s_idx:e_idx]) / len(v[s_idx:e_idx]) for v in vals]
+            if all((a - avs[0]).denominator == 1 for a in avs) and seclens[0] >= 2:
+                vals[0][s_idx] += 1.0
         stypes = rng.choice(['custom', 'acc'])
-        site = 'Cluster.same_start[%d signals]' % nsig + ('[nearly aligned, %s]' % special if special else '')
-        args = {'values': [list(v) for v in vals], 'dt': dt, 'master_index': master, 'kwargs': kw, 'stypes': stypes}
+        for master in ([master] if st == 0 else range(nsig)):
+            site = ('Cluster.same_start[%d signals]' % nsig + ('[nearly aligned, %s]' % special if special else '')
+                    + ('[%s storage]' % STORAGE[st] if st else ''))
+            args = {'values': [list(v) for v in vals], 'dt': dt, 'master_index': master, 'kwargs': kw, 'stypes': stypes}
+            if st:
+                args['storage'] = STORAGE[st]
 
-        def call():
-            c = make_cluster(vals, dt, master, stypes)
-            c.same_start(**kw)
-            return [np.array(c.values_by_index(i), dtype=float) for i in range(nsig)]
+            def call():
+                c = make_cluster(vals, dt, master, stypes, st)
+                c.same_start(**kw)
+                return [np.array(c.values_by_index(i), dtype=float) for i in range(nsig)]
 
-        outs = guarded(call)
-        if isinstance(outs, ImplError):
-            viol_once(rep, site, {'function': 'eqsig.Cluster.same_start', 'args': args, 'impl_error': str(outs)})
-            continue
-        if not all(np.all(np.isfinite(o)) for o in outs):
-            viol_once(rep, site, {'function': 'eqsig.Cluster.same_start', 'args': args, 'impl': [[repr(float(x)) for x in o] for o in outs],
-                                 'problem': 'non-finite values after same_start on a non-empty window'})
-            continue
-        scale = max(float(np.max(np.abs(v))) for v in vals) + 1e-300
-        if exact and all(pow2(L) for L in seclens):
-            tol = 0
-        elif exact:
-            tol = 1e-12 * scale
-        else:
-            tol = 1e-10 * scale
-        moved = any(np.any(o != v) for o, v in zip(outs, vals) if len(o) == len(v))
-        cases.append(Case('CSs %d %s %s %s %s %s %s' % (master, q(dt), q(start), q(end), qmat(vals), qmat(outs), q(tol)),
-                          {'function': 'eqsig.Cluster.same_start', 'args': args, 'impl': outs}, site, nontrivial=moved,
-                          klass='same_start/%d/%s/%s%s' % (nsig, mode, 'exact' if tol == 0 else 'tol', '/' + special if special else '')))
+            outs = guarded(call)
+            if isinstance(outs, ImplError):
+                viol_once(rep, site, {'function': 'eqsig.Cluster.same_start', 'args': args, 'impl_error': str(outs)})
+                continue
+            if not all(np.all(np.isfinite(o)) for o in outs):
+                viol_once(rep, site, {'function': 'eqsig.Cluster.same_start', 'args': args, 'impl': [[repr(float(x)) for x in o] for o in outs],
+                                     'problem': 'non-finite values after same_start on a non-empty window'})
+                continue
+            scale = max(float(np.max(np.abs(v))) for v in vals) + 1e-300
+            if exact and all(pow2(L) for L in seclens):
+                tol = 0
+            elif st == 4:
+                # float32 records: the unchanged code works in float32 throughout (np.mean of a float32 array is a float32, so are the
+                # difference and the shifted record): float32 precision, (n + 4) ulp32 of the record scale < 1e-5 for sections <= 46 samples
+                tol = 1e-5 * scale
+            elif exact:
+                tol = 1e-12 * scale
+            else:
+                tol = 1e-10 * scale
+            moved = any(np.any(o != v) for o, v in zip(outs, vals) if len(o) == len(v))
+            cases.append(Case('CSs %d %s %s %s %s %s %s' % (master, q(dt), q(start), q(end), qmat(vals), qmat(outs), q(tol)),
+                              {'function': 'eqsig.Cluster.same_start', 'args': args, 'impl': outs}, site, nontrivial=moved,
+                              klass='same_start/%d/%s/%s%s%s' % (nsig, mode, 'exact' if tol == 0 else 'tol', '/' + special if special else '',
+                                                                 '/' + STORAGE[st] if st else '')))
     return fragile
 
 
@@ -642,6 +750,7 @@ def run(rep, rng, tier):
     rotation_cases(rep, rng, tier, cases, goals)
     near_cardinal_cases(rep, rng, tier, cases, goals)
     tm_cases(rep, rng, tier, cases)
+    tm_long_cases(rep, rng, tier, cases)
     fragile = ss_cases(rep, rng, tier, cases)
     rep.extra['fragile_skipped'] = fragile
     t2 = time.time()
@@ -683,7 +792,7 @@ def replay_call(rp):
         kw = dict(measure_specs()[kind][0], points=a['points'], angle_off_ns=a['angle_off_ns'])
         st = STORAGE.index(a.get('storage', 'float64'))
         return eqsig.compute_rotated(eqsig.AccSignal(stored(a['ns'], st), a['dt']), eqsig.AccSignal(stored(a['we'], st), a['dt']), **kw)
-    c = eqsig.Cluster([np.array(v, dtype=float) for v in a['values']], a['dt'], master_index=a['master_index'], stypes=a['stypes'])
+    c = eqsig.Cluster([stored(v, STORAGE.index(a.get('storage', 'float64'))) for v in a['values']], a['dt'], master_index=a['master_index'], stypes=a['stypes'])
     if f == 'eqsig.Cluster.time_match':
         r = c.time_match(steps=a['steps'])
         return {'returned': r, 'values': [c.values_by_index(i) for i in range(len(a['values']))]}
